@@ -249,6 +249,21 @@ def check_geometry(lens, ra, tags, lens_as=None):
             r = G("index_array", lambda: np.asarray(shape.index_array()).tolist(), rr.tolist())
             if r:
                 return r
+            # position vectors that are not arange: a permutation that keeps the end points, one with a repeat, a reversed one, a subset
+            import random as _r
+            rr_ = _r.Random(tot * 31 + n)
+            perm = list(range(tot))
+            mid = perm[1:-1]
+            rr_.shuffle(mid)
+            vecs = [[perm[0]] + mid + [perm[-1]] if tot > 1 else perm, perm[::-1], sorted(rr_.choice(perm) for _ in perm), sorted(set(rr_.choice(perm) for _ in range(max(1, tot // 2))))]
+            for pv in vecs:
+                want = [[cells[p_][0] for p_ in pv], [cells[p_][1] for p_ in pv]]
+                r = G("unravel_multi_index(position vector)", lambda: [np.asarray(x).tolist() for x in shape.unravel_multi_index(np.array(pv, dtype=np.int64))], want)
+                if r:
+                    return r
+                r = G("ravel_multi_index(pairs)", lambda: np.asarray(shape.ravel_multi_index((np.array(want[0]), np.array(want[1])))).tolist(), list(pv))
+                if r:
+                    return r
             # single positions, as the hash table / counter use them
             k = tot // 2
             r = G("unravel_multi_index(scalar)", lambda: tuple(int(x) for x in shape.unravel_multi_index(k)), cells[k])
